@@ -713,6 +713,9 @@ class VpdAta(VpdBase):
         v["_model"] = gen.byte_string(rng, 40, "text")
         v["_word0"] = rng.choice([0x0040, 0x8580, 0x0C5A, 0x848A, rng.getrandbits(16)])  # general configuration: ATA disk, ATAPI, ...
         v["_word2"] = rng.choice([0x37C8, 0x738C, 0x8C73, 0xC837, rng.getrandbits(16)])  # specific configuration
+        # word 255, the integrity word every ATA-5 and later device sends: signature A5h and the checksum that makes the 512
+        # bytes sum to zero; also a signature with a wrong checksum, and none
+        v["_integrity"] = rng.choice(["valid", "valid", "valid", "bad_checksum", "none"])
         return v
 
     def encode(self, v):
@@ -732,6 +735,11 @@ class VpdAta(VpdBase):
         ident[20:40] = v["_serial"]  # words 10-19
         ident[46:54] = v["_fw"]  # words 23-26
         ident[54:94] = v["_model"]  # words 27-46
+        if v.get("_integrity", "none") != "none":
+            ident[510] = 0xA5
+            ident[511] = (-sum(ident[:511])) & 0xFF
+            if v["_integrity"] == "bad_checksum":
+                ident[511] ^= 0x10
         b[60:572] = ident
         return self.hdr(v, bytes(b[4:]))
 
